@@ -56,14 +56,17 @@ def probe(Color, ColorPair, bulk, v, bgv):
 def regen():
     """CmGen/ParserSeq.lean: the tuple/list branch and the top-level dispatch of parse_color_to_rgb as they read now (the
     `source_*` theorems of CmProps/C14seq.lean identify them with the model's parseColor)"""
-    from translate import parserseq
+    from translate import parserseq, api
     parserseq.generate()
+    api.generate()              # CmGen/Api.lean: Color._parse / ColorPair.__init__ as they read now (CmProps/C14api.lean)
 
 
 def check(run):
     run.proof = proof_status("C14", regenerate=regen)
     from translate import parserseq as _ps
     run.extra["source_translation_parser_sequences"] = _ps.summary()
+    from translate import api as _api
+    run.extra["source_translation_api"] = _api.summary()
     q = run.quick()
     repo_import()
     from cm_colors import Color, ColorPair, make_readable_bulk
@@ -92,6 +95,23 @@ def check(run):
             run.diverge("Color/ColorPair states==Cm.ColorPair.new", {"value": repr(v), "background": repr(b)}, line, m)
         elif line is None and "raised" not in m:
             run.diverge("Color/ColorPair states==Cm.ColorPair.new", {"value": repr(v), "background": repr(b)}, "raised", m)
+    # ---- numbers beyond what the model's value encoding carries (ints past 64 bits, up to and past the range of a double):
+    # "any list or tuple of numbers" includes them; the property is evaluated on the implementation alone
+    huge = [2 ** 63, -2 ** 63 - 1, 10 ** 30, -10 ** 30, 2 ** 1023, 2 ** 1024, -2 ** 1024, 10 ** 400, -10 ** 400]
+    small = [0, 1, 255, 128, 0.5, 0.0, 1.0, 0.25, 200.0, "50%", "0.5", "12", None, True]
+    for i in range(400 if q else 8000):
+        n = run.rng.choice([1, 2, 3, 3, 3, 4, 4, 4, 5])
+        items = [run.rng.choice(small) for _ in range(n)]
+        items[i % n] = run.rng.choice(huge)
+        if run.rng.random() < 0.3:
+            items[run.rng.randrange(n)] = run.rng.choice(huge)
+        v = tuple(items) if i % 2 else items
+        b = run.rng.choice(["#fff", (10, 20, 30), "white", v])
+        line, viol = probe(Color, ColorPair, make_readable_bulk, v, b)
+        run.count(("huge",) + gc.canon(v), not (line or "").startswith("valid"))
+        run.hit("input.huge_int.seq%d.%s" % (n, "valid" if (line or "").startswith("valid") else "invalid" if line else "raised"))
+        for what, got in viol:
+            run.violation("invalid colour input: " + what, {"value": repr(v), "background": repr(b)}, got=got)
     run.sample({"value": repr(vals[0]), "background": repr(bgs[0]), "model": model[0]})
     run.sample({"value": repr((0.5, 0.5, 0.5, None)), "impl": probe(Color, ColorPair, make_readable_bulk, (0.5, 0.5, 0.5, None), "#fff")[0]})
     run.assumptions = ["CPython's float(str) raises nothing but ValueError on a str (modelled grammar, compared on every generated token)",
